@@ -11,6 +11,15 @@ NOTE = ("Trusted: CrossHair 0.0.110 + z3, the overlay venv, the environment stub
         "isinstance shim), the harness oracles under /verif/vf. Grammars are a fixed corpus (classes cannot be symbolic); all bounds are in evidence.assumptions.")
 
 CLAIMED = {
+    "C09": dict(
+        text="Mutation and crossover of all five representations and every built-in step (elitism, novelty, tournament, lexicase, mutation, crossover, "
+             "sequence, parallel, exclusive parallel) run on parents / populations created by the real code over symbolic draws; a by-value-and-identity "
+             "snapshot of every input (tree structure with all node metadata, type index by identity, synthesis contexts, gengy_init_values identity; gene "
+             "containers by identity and content; individual genotype, phenotype, metadata, cached fitness; the population list itself) taken before is "
+             "compared after the operation and again after the offspring were varied once more; offspring must not share gene containers with parents. "
+             "Path trees exhausted. Bounds: tree depth <= 2, gene length <= 4, populations of 2, two consecutive operations.",
+        design_ref="DESIGN.md section 4 (C09)",
+    ),
     "C20": dict(
         text="CSVSearchRecorder (default fields, extra fields) and SimpleGP.build_recorder's wrapping of user callbacks run under the real single- and "
              "multi-objective trackers with symbolic fitness selectors, symbolic direction and recording mode; the file is really written, and after "
